@@ -27,8 +27,8 @@ def reentrancy(ctx, rule):
     A = refcell.Analysis(ctx)
     sites = [br for brs in A.direct.values() for br in brs]
     cells = set(br.cell for br in sites)
-    ctx.floor(rule, "refcell_borrow_sites", len(sites), 22)
-    ctx.floor(rule, "refcell_cells", len(cells), 15)
+    ctx.floor(rule, "refcell_borrow_sites", len(sites), 8)
+    ctx.floor(rule, "refcell_cells", len(cells), 5)
     for br in sites:
         if br.cell[0] == "unknown":
             ctx.fail(rule, "unknown-cell:%s" % br.body.id, where(br.body, br.bi, br.term),
@@ -177,6 +177,15 @@ def unsigned_subtractions(ctx, rule):
                 ctx.assumed(rule, key, where(b, bi), "`%s` is a difference of tokeniser geometry fields; non-negative by the word "
                             "well-formedness that C15 states (slices ordered, words in order, stem >= 1)" % txt)
                 continue
+            opaque = [x for side in (a, c) for x in S.walk(side) if isinstance(x, tuple) and x and x[0] == "call" and
+                      x[1].endswith(("Iterator::find_map", "Iterator::fold", "Option::map", "Option::and_then", "Option::map_or",
+                                     "Option::unwrap_or_else", "Iterator::filter_map", "Iterator::reduce")) and
+                      any(U.closure_body(ctx, y) is not None for y in x[2])]
+            if opaque:
+                # the operand is whatever a user closure handed to a combinator returns: outside the language of the prover
+                ctx.assumed(rule, key, where(b, bi), "`%s`: an operand is produced by a closure passed to `%s`; the linear prover has no "
+                            "model of it (not decided)" % (txt, opaque[0][1].rsplit("::", 2)[-2] + "::" + opaque[0][1].rsplit("::", 1)[-1]))
+                continue
             ctx.fail(rule, key, where(b, bi),
                      "unsigned subtraction `%s` in %s is not guarded: no dominating condition, loop invariant or std lemma implies that "
                      "the left operand is at least the right one (overflow trap in a checked build, wrap-around otherwise)" % (txt, b.id),
@@ -185,7 +194,7 @@ def unsigned_subtractions(ctx, rule):
     ctx.count("unsigned_subtractions", n)
     ctx.count("unsigned_subtractions_proved", proved)
     ctx.count("unsigned_subtractions_geometry_assumed", geom)
-    ctx.floor(rule, "unsigned_subtraction_sites", n, 20)
+    ctx.floor(rule, "unsigned_subtraction_sites", n, 8)
 
 
 def R19_bufs(ctx, b):
@@ -271,15 +280,14 @@ def panic_inventory(ctx, rule):
             else:
                 ctx.ok(rule, key, where(b, bi, t), "explicit panic classified: %s" % cls, kind="S")
     ctx.count("explicit_panic_sites", n)
-    ctx.floor(rule, "explicit_panic_sites", n, 10)
+    ctx.floor(rule, "explicit_panic_sites", n, 4)
     ctx.notes.append("panic classes: %s" % classes)
 
 
 def strict_posting_assertion(ctx):
     """does the index writer still assert (debug_assert!) that posting lists are *strictly* increasing?"""
-    for b in ctx.facts.fns():
-        if b.kind != "closure" or "TrigramIndex::add" not in b.id:
-            continue
+    from . import r_trigram as RT_
+    for b in RT_.posting_writer_bodies(ctx):
         sy = ctx.sym(b)
         for bi, si, st in b.iter_stmts():
             if st["k"] == "assign" and st["rv"]["k"] == "binop" and st["rv"]["op"] in ("Lt", "Gt") and not b.blocks[bi]["cleanup"]:
